@@ -4,6 +4,7 @@
 -/
 import SifVerif.Proofs.CreateWF
 import SifVerif.Proofs.Zero
+import SifVerif.Proofs.RangesStep
 namespace Sif.C03
 
 variable (sha : Bytes → Bytes) (ph : Bytes → Option Bytes)
@@ -56,6 +57,17 @@ theorem C03_history (s : Img) (ops : List (Op × Int)) (W : WF s) (P : Placed s)
     · intro k; simpa [runOps] using hR (k + 1)
     · intro k op' now' hk
       simpa [runOps] using hio (k + 1) op' now' (by simpa using hk)
+
+/-- the same with hypotheses on what comes in from outside only (`Op.InRange`: clock, explicit
+    times and descriptor fields representable in their Go types, and an add's new data end within
+    int64); `Ranges` of every state reached follows (`Ranges_history`) -/
+theorem C03_history_inputs (s : Img) (ops : List (Op × Int)) (W : WF s) (P : Placed s) (R : Ranges s)
+    (E : EndsOK s)
+    (hin : ∀ k op now, ops[k]? = some (op, now) → Op.InRange (runOps sha ph s (ops.take k)) op now)
+    (hio : ∀ k op now, ops[k]? = some (op, now) →
+      (step sha ph (runOps sha ph s (ops.take k)) op now).2 ≠ .err .io) :
+    WF (runOps sha ph s ops) ∧ Placed (runOps sha ph s ops) :=
+  C03_history sha ph s ops W P (Ranges_history sha ph s ops W R E hin hio) hio
 
 /-- the descriptor table lies where the header says, after the header and before the data
     section, and the bytes there are exactly the encoding of the in-memory table -/
